@@ -74,4 +74,40 @@ def fmt_first(ctx, prog, eff, rule='FMT-FIRST'):
                     why = 'the parse-state test (%s & 0x%X) != 0x%X does not include the bit(s) 0x%X set where the channel count is parsed: the table is sized from a channel count that is not known yet' % (S, M, M2, B)
                 break
             ctx.ob(rule, key, ok, f.loc(c), why, None)
+        # (iii) once the table exists the channel count must not change under it: a setter that can run again in the same chunk loop
+        #       is guarded by "this chunk was already seen" or discards the table itself
+        LOOPS = ('WhileStmt', 'ForStmt', 'DoStmt')
+        for s_ in setters:
+            lp = [a for a in f.ancestors(s_) if a['k'] in LOOPS]
+            if not lp or not any(f.within(c, lp[-1]) for c in allocs):
+                continue
+            n_inst += 1
+            key = '%s:again:%s' % (f.name, f.s(s_)[:40].replace(' ', ''))
+            why = None
+            for n in f.walk(lp[-1]):
+                if n['k'] != 'IfStmt' or n.get('then') is None or not f.cfg.dominates(n, s_) and not any(f.cfg.dominates(x, s_) for x in f.walk(n['cond'])):
+                    continue
+                cn = f.unwrap(f.N[n['cond']])
+                if cn.get('k') == 'BinaryOperator' and cn.get('op') == '&' and f.s(f.N[cn['kids'][0]]) in bits:
+                    S = f.s(f.N[cn['kids'][0]])
+                    M = f.unwrap(f.N[cn['kids'][1]]).get('v')
+                    if M is not None and (M & bits[S]) and (M & ~bits[S]) == 0 and any(x['k'] in ('BreakStmt', 'ReturnStmt', 'ContinueStmt') for x in f.walk(n['then'])):
+                        why = 'a repeated chunk is left alone: `if (%s)` leaves before the channel count is parsed again' % f.s(cn)[:50]
+                        break
+            if why is None and s_['k'] == 'CallExpr' and s_.get('callee'):
+                seen_, todo_ = set(), [s_['callee']]
+                while todo_ and why is None:
+                    g_ = todo_.pop()
+                    if g_ in seen_ or g_ not in prog.fns:
+                        continue
+                    seen_.add(g_)
+                    for gf in prog.fns[g_] if isinstance(prog.fns[g_], list) else [prog.fns[g_]]:
+                        for c_ in gf.calls():
+                            if c_.get('callee') == 'free' and gf.s(gf.unwrap(gf.args(c_)[0])).endswith('peak_info'):
+                                why = '%s discards the existing table (free (%s)) when it parses the channel count' % (g_, gf.s(gf.unwrap(gf.args(c_)[0])))
+                                break
+                            if c_.get('callee') and len(seen_) < 6:
+                                todo_.append(c_['callee'])
+            ctx.ob(rule, key, why is not None, f.loc(s_), why or 'the channel count can be parsed again after the per-channel table was allocated (a second format chunk): nothing stops it and nothing '
+                   'discards the table, so a larger channel count makes every reader of peaks [0..channels) run off the block', None)
     ctx.require(n_inst >= 4, 'only %d channel-sized allocations found in header readers' % n_inst)
